@@ -376,6 +376,33 @@ func childRun(args []string) int {
 			instA.Stop()
 			return emit()
 		}
+		if mode == "noisy-listener" {
+			// before the peer dials in, the listener sees what every reachable port sees: probes that connect and
+			// leave, garbage, half a handshake. None of that may use up anything the real peer needs afterwards.
+			nr := rand.New(rand.NewPCG(uint64(cycle)+7, 20))
+			for k := 0; k < 48; k++ {
+				c, err := net.DialTimeout("tcp", fmt.Sprintf("%s:%d", g.loopHost(), portA), time.Second)
+				if err != nil {
+					continue
+				}
+				switch k % 4 {
+				case 0: // port probe
+				case 1:
+					junk := make([]byte, 1+nr.IntN(200))
+					for i := range junk {
+						junk[i] = byte(nr.IntN(256))
+					}
+					_, _ = c.Write(junk)
+				case 2: // a plausible length prefix, then silence
+					_, _ = c.Write([]byte{0, 120, 1, 1, 0, 0, 1})
+					time.Sleep(5 * time.Millisecond)
+				default:
+					time.Sleep(10 * time.Millisecond)
+				}
+				c.Close()
+			}
+			time.Sleep(200 * time.Millisecond)
+		}
 		instB = start("B", stB)
 		if instB == nil {
 			instA.Stop()
@@ -570,7 +597,7 @@ func run(c *core.Ctx) {
 		res.Inconcl("os.Executable: %v", err)
 		return
 	}
-	n := c.Q(12, 300)
+	n := c.Q(14, 308)
 	maxCycles := c.Q(2, 5)
 	par := 12
 	prefix := ""
@@ -591,7 +618,7 @@ func run(c *core.Ctx) {
 			dir := filepath.Join(c.WorkDir, fmt.Sprintf("c%d", i))
 			ctx, cancel := context.WithTimeout(context.Background(), 8*time.Minute)
 			defer cancel()
-			mode := []string{"normal", "flood-stop", "stop-with-inflight-frame", "immediate", "single-cpu", "lonely-first"}[i%6]
+			mode := []string{"normal", "flood-stop", "stop-with-inflight-frame", "immediate", "single-cpu", "lonely-first", "noisy-listener"}[i%7]
 			if mode == "lonely-first" && cycles < 2 {
 				cycles = 2
 			}
